@@ -2,7 +2,7 @@
     Statements only; each closed by [exact] of a lemma in Proofs/Loop.v / Proofs/LoopProps.v.
     Model: Model/Loop.v ([bench_loop c init hist]: the sampling loop run on a
     history [hist] = the raw samples each round brought back, one per thread). *)
-From DivanV Require Import Base.Res Generated.Consts Model.Timestamp Model.Loop Proofs.Loop Proofs.LoopProps Proofs.LoopSb Proofs.LoopExamples Proofs.LoopMeaning.
+From DivanV Require Import Base.Res Generated.Consts Model.Timestamp Model.Loop Proofs.Loop Proofs.LoopProps Proofs.LoopSb Proofs.LoopExamples Proofs.LoopMeaning Proofs.LoopTuned.
 Local Open Scope N_scope.
 
 (** Obligations on the generated constants: the default sample count and the
@@ -160,3 +160,18 @@ Theorem C03_sb_meaning : forall c t init hist o,
     end).
 Proof. exact c03_sb_meaning. Qed.
 Print Assumptions C03_sb_meaning.
+
+(** Tuned sample size ([c03_tuned_sb], evaluated with [c03_sb] by the violation
+    search): with [j0] the first round passing the tuning threshold and
+    R = ceil(n/t), when no time limit is reached in the first j0 + R rounds and
+    the floor is reached by then, exactly j0 + R rounds are run and t*R samples
+    recorded; fewer rounds only if the ceiling was reached.  It holds of the
+    model's output for every history ([C19_threshold_round_counts] is the
+    same count as a proposition). *)
+Theorem C03_tuned_sample_count : forall c init hist out t s,
+  c_test c = false ->
+  bench_loop c init hist = Ok out -> out_done out = true ->
+  seen_of_outcome t out = Ok s -> (0 < t)%nat ->
+  c03_tuned_sb c t init (firstn (rounds_of (out_state out)) hist) s = true.
+Proof. exact c03_tuned_model_sb. Qed.
+Print Assumptions C03_tuned_sample_count.
